@@ -23,6 +23,18 @@ UNIT = dict(
     rules=[("R1",)],
     extra_params=[],
     fns={
+        "RetryBudgetBuilder::token_bucket": dict(),
+        "RetryBudgetBuilder::aimd": dict(),
+        "TokenBucketBuilder::tokens_per_second": dict(rules=MUT),
+        "TokenBucketBuilder::max_tokens": dict(rules=MUT),
+        "TokenBucketBuilder::initial_tokens": dict(rules=MUT),
+        "TokenBucketBuilder::build": dict(rules=[("sub", "R10-unwrap-or", r"self\.initial_tokens\.unwrap_or\(self\.max_tokens\)", "(match self.initial_tokens { Some(vx_i) => vx_i, None => self.max_tokens })", 1)]),
+        "AimdBudgetBuilder::min_budget": dict(rules=MUT),
+        "AimdBudgetBuilder::max_budget": dict(rules=MUT),
+        "AimdBudgetBuilder::deposit_amount": dict(rules=MUT),
+        "AimdBudgetBuilder::withdraw_amount": dict(rules=MUT),
+        "AimdBudgetBuilder::decrease_factor": dict(rules=MUT),
+        "AimdBudgetBuilder::build": dict(),
         "AimdConfig::default@Default": dict(file="aimd"),
         "AimdConfig::new": dict(file="aimd"),
         "AimdConfig::with_initial_limit": dict(file="aimd", rules=MUT),
@@ -100,5 +112,6 @@ UNIT = dict(
         ("struct", "AimdController", "aimd"),
         ("struct", "TokenBucketBudget", "budget", {"extra": ["initial"]}),
         ("struct", "AimdBudget", "budget", {"extra": ["initial"]}),
+        ("struct", "TokenBucketBuilder", "budget"), ("struct", "AimdBudgetBuilder", "budget"),
     ],
 )
